@@ -72,7 +72,7 @@ fn main() {
                 } else {
                     "panic".to_string()
                 };
-                serde_json::json!({ "panic": msg })
+                serde_json::json!({ "panic": msg, "stage": ops::STAGE.with(|x| x.borrow().clone()) })
             }
         };
         if let Some(o) = v.as_object_mut() {
